@@ -112,10 +112,27 @@ func Bitmap(d spec.DropSpec) *roaring.Bitmap {
 // Merge merges with an explicit chunk mode (0 = public Merge, mode 1026).
 func Merge(segs []segment.Segment, drops []*roaring.Bitmap, path string, chunkMode uint32,
 	closeCh chan struct{}, s segment.StatsReporter) ([][]uint64, uint64, error) {
-	if chunkMode == 0 {
-		return Plugin.Merge(segs, drops, path, closeCh, s)
+	// the deletion bitmaps stay the caller's: a merge reads them and leaves them as they were
+	before := make([]*roaring.Bitmap, len(drops))
+	for i, d := range drops {
+		if d != nil {
+			before[i] = d.Clone()
+		}
 	}
-	return zap.VerifMergeWithChunkMode(segs, drops, path, chunkMode, closeCh, s)
+	var nums [][]uint64
+	var size uint64
+	var err error
+	if chunkMode == 0 {
+		nums, size, err = Plugin.Merge(segs, drops, path, closeCh, s)
+	} else {
+		nums, size, err = zap.VerifMergeWithChunkMode(segs, drops, path, chunkMode, closeCh, s)
+	}
+	for i, d := range drops {
+		if (d == nil) != (before[i] == nil) || d != nil && !d.Equals(before[i]) {
+			return nums, size, fmt.Errorf("INPUT-MODIFIED: Merge changed the caller's deletion bitmap of input %d from %v to %v (merge returned %v)", i, before[i], d, err)
+		}
+	}
+	return nums, size, err
 }
 
 // PlanResult is what executing a merge plan produced.
